@@ -8,7 +8,7 @@ from vp import core, gen, ref_sigproc
 
 PROP_ID = 'C19'
 LEVEL = 'exploration'
-BUDGET = {'quick': 2400, 'thorough': 60000}
+BUDGET = {'quick': 4000, 'thorough': 60000}
 RULE = ('Two generated families. Files: an independent SIGPROC writer produces filterbank files with nchans in [2,400], '
         '1..8 integrations, header fch1 in {1000, 6095.214842353016, 8400.5, 1420.40575} MHz, foff of either sign with '
         'magnitude in {2.7939677238464355e-6, 1e-6, 1e-7, 3.3e-6, (1/3)e-3} MHz and channel-coded content '
